@@ -25,6 +25,8 @@ def run(tier, seed):
     common.code_to_spec(chk, scfgs, lambda c: SplitReal(c), tag='split', split='cfg', chk_fields=())
     # (c) all asset types, all routes: light abstraction
     common.zoo_portfolio_traces(chk, seeds=range(seed, seed + (2 if not th else 8)), clause_filter=is_c01, clauses=('balance',))
+    if th:
+        common.harvested_test_suite(chk, ('balance',), is_c01)
     chk.assumptions += ['light abstraction (flows and attachment only) for asset types outside the reference model']
     return chk.finish(rule='reference-model families (composite, transport, multi-commodity, split) with balance near-misses; zoo of 16 portfolios over all '
                            'asset types x routes (mono, split, io.optimize) x seeds; non-trivial = accepted trace / configuration with behaviours',
